@@ -100,6 +100,8 @@ func (r *Ref) ends(e *Expr, i int) bits {
 		}
 	case KOpt:
 		out = r.ends(e.Kids[0], i) | 1<<uint(i)
+	case KSuppress:
+		out = r.ends(e.Kids[0], i)
 	default:
 		out = r.seqEnds(e, 0, i)
 	}
@@ -281,6 +283,8 @@ func (t *TreeRef) trees(e *Expr, i int) TreeSet {
 			out[s] = j
 		}
 		out[fmt.Sprintf("EMPTY@%d", i)] = i
+	case KSuppress:
+		out = t.trees(e.Kids[0], i)
 	default:
 		t.seqTrees(e, 0, i, i, nil, out)
 	}
@@ -408,6 +412,8 @@ func (v *Validator) valid(e *Expr, n parsley.Node, start int) bool {
 		if en, ok := n.(ast.EmptyNode); ok && int(en.Pos())-v.base == start {
 			return true
 		}
+		return v.Valid(e.Kids[0], n, start)
+	case KSuppress:
 		return v.Valid(e.Kids[0], n, start)
 	}
 	if !isSeqLike(e.K) {
